@@ -1,12 +1,37 @@
-import Labella.Proofs.ChainOpt
-/-! # C03 — bounds honoured when the items fit, otherwise the excess spills -/
+import Labella.Proofs.LayoutSep
+import Labella.Model.LayoutSpec
+/-! # C03 — position bounds are honoured whenever the items fit; otherwise the excess spills -/
 namespace Labella.C03
-open Labella Labella.Chain
+open Labella Labella.Chain Labella.Layout
 
-/-- Walls are ordinary chain variables: whatever their weight and whether or not the items fit, the loop
-ends with every neighbour constraint satisfied up to `eps` (separation is never traded for the bounds). -/
-theorem separation_kept_with_walls (eps : ℚ) (bs : List Block) :
-    ∀ s ∈ slacks (satisfy eps bs.length bs), -eps ≤ s :=
-  satisfy_feasible eps bs.length bs (by omega)
+/-- **If they do not fit, separation is still kept in full**: the separation theorem has no hypothesis about
+fitting — whatever the bounds, neighbours keep their gaps up to eps (so the excess can only go beyond the
+bounds, never into overlap). -/
+theorem separation_kept_regardless_of_bounds (o : ROpts) (its : List LItem)
+    (hs : its.Pairwise (fun a b => a.target ≤ b.target)) :
+    sepAdjB o Layout.eps (its.zip (solveSorted o its)) = true :=
+  sep_unrounded' o its hs
+
+/-- **If they fit, the walls stay at the bounds** up to `sqrt(K / W)`: whenever some placement `zs` of the items
+keeps all gaps inside `[lo, hi]`, `W·(x_L − lo)² + W·(x_R − hi)² ≤ K := Σ (zᵢ − tᵢ)²` (W = 1e10). -/
+theorem walls_near_bounds (its : List LItem) (lo hi : ℚ) (ns ls : ℚ) (h : its ≠ [])
+    (zs : List ℚ) (hz : zs.length = its.length)
+    (hfeas : SepBy 0 (chainGaps ⟨some lo, some hi, ns, ls⟩ its) (lo :: zs ++ [hi])) :
+    let o : ROpts := ⟨some lo, some hi, ns, ls⟩
+    let all := solve Layout.eps (chainVars o its) (chainGaps o its)
+    Gen.wallWeight * (all.headD 0 - lo) * (all.headD 0 - lo)
+      + Gen.wallWeight * (all.getLastD 0 - hi) * (all.getLastD 0 - hi)
+      ≤ cost (its.map toVar) zs := by
+  intro o all
+  exact walls_near_bounds' its lo hi ns ls h zs hz hfeas
+
+/-- the first (last) item is a hard half-width away from its wall, like every other gap of the chain -/
+theorem wall_gaps_kept (o : ROpts) (its : List LItem) :
+    SepBy Layout.eps (chainGaps o its) (solve Layout.eps (chainVars o its) (chainGaps o its)) :=
+  solve_feasible' Layout.eps eps_nonneg' _ _ (chainVars_pos o its)
+
+-- non-vacuity: two labels that fit between 0 and 20 lie inside; walls stay (almost) put
+example : solve Layout.eps (chainVars ⟨some 0, some 20, 3, 2⟩ [⟨5, 4, false⟩, ⟨6, 4, false⟩])
+    (chainGaps ⟨some 0, some 20, 3, 2⟩ [⟨5, 4, false⟩, ⟨6, 4, false⟩]) = [0, 2, 9, 20] := by decide +kernel
 
 end Labella.C03
